@@ -528,13 +528,9 @@ pub fn probing_order(bytes: &[u8], s: &NormalizerSettings) -> (Vec<String>, Vec<
     (prio, order)
 }
 
-/// C06 + C09 converse, non-lazy inputs: rebuild the expected set of reported encodings from
-/// stand-alone verdicts, the hint rule and the similarity bookkeeping, and compare.
-pub fn check_c06_c09(bytes: &[u8], s: &NormalizerSettings, ms: &CharsetMatches) -> Vec<Found> {
-    let mut out = vec![];
-    if bytes.is_empty() || bytes.len() > charset_normalizer_rs::consts::TOO_BIG_SEQUENCE {
-        return out;
-    }
+/// the expected soft-failure list, accepted list and early-exit candidate, rebuilt from stand-alone
+/// verdicts of the real library, the hint rule and the similarity bookkeeping as the property states it
+pub fn reconstruct(bytes: &[u8], s: &NormalizerSettings) -> (Vec<String>, Vec<String>, Option<String>) {
     let inc: Vec<String> = s.include_encodings.iter().filter_map(|x| iana_name(x).map(|y| y.to_string())).collect();
     let exc: Vec<String> = s.exclude_encodings.iter().filter_map(|x| iana_name(x).map(|y| y.to_string())).collect();
     let (prio, order) = probing_order(bytes, s);
@@ -566,6 +562,17 @@ pub fn check_c06_c09(bytes: &[u8], s: &NormalizerSettings, ms: &CharsetMatches) 
             }
         }
     }
+    (soft, accepted, exit_on)
+}
+
+/// C06 + C09 converse, non-lazy inputs: rebuild the expected set of reported encodings from
+/// stand-alone verdicts, the hint rule and the similarity bookkeeping, and compare.
+pub fn check_c06_c09(bytes: &[u8], s: &NormalizerSettings, ms: &CharsetMatches) -> Vec<Found> {
+    let mut out = vec![];
+    if bytes.is_empty() || bytes.len() > charset_normalizer_rs::consts::TOO_BIG_SEQUENCE {
+        return out;
+    }
+    let (_soft, accepted, exit_on) = reconstruct(bytes, s);
     let reported: Vec<String> = all_candidates(ms).into_iter().map(|x| x.1).collect();
     let is_fb = is_fallback_shape(bytes, s, ms) && accepted.is_empty();
     match &exit_on {
